@@ -191,7 +191,11 @@ def rand_expr(rnd, names):
     if x < 0.9:
         return {'unary': {'op': '!', 'expr': V(rnd.choice(names))}}
     # (len / abs / max are expression-only aliases: undefined functions inside a script)
-    return {'function': {'name': rnd.choice(['f1', 'f2', 'mathAbs', 'f3', 'len', 'abs', 'max']), 'args': [V(rnd.choice(names))] * rnd.randint(0, 2)}}
+    fname = rnd.choice(['f1', 'f2', 'mathAbs', 'f3', 'len', 'abs', 'max', 'arrayPush', 'arrayLength', 'arrayPush'])
+    if fname == 'arrayPush':
+        # (mutates its first argument when that is an array - e.g. the rest array of a "..." function; never pushes an array into itself)
+        return {'function': {'name': fname, 'args': [V(rnd.choice(names)), N(rnd.randint(0, 9))]}}
+    return {'function': {'name': fname, 'args': [V(rnd.choice(names))] * rnd.randint(0, 2)}}
 
 
 def rand_stmts(rnd, n, names, infunc, nested=False):
@@ -260,12 +264,31 @@ def run_truthiness(acc, api):
             acc.cover('jump_condition_types', refval.rtype(v))
 
 
+def run_rest_arrays(acc, api):
+    """Directed: every call of a function with a "..." parameter gets its OWN array (empty when no rest argument is passed), however
+    earlier calls - of this run or of an earlier execution of the same model - changed theirs."""
+    def call(name, *args):
+        return {'function': {'name': name, 'args': list(args)}}
+    log = lambda e: {'expr': {'expr': call('systemLog', {'binary': {'op': '+', 'left': {'string': 'r='}, 'right': call('jsonStringify', e)}})}}  # noqa: E731
+    for params, nargs in ((['rest'], 0), (['a', 'rest'], 1), (['a', 'rest'], 0), (['a', 'b', 'rest'], 1), (['rest'], 2)):
+        for mut in (call('arrayPush', V('rest'), N(7)), call('arraySet', V('rest'), N(0), N(9)), call('arrayExtend', V('rest'), call('arrayNew', N(1), N(2)))):
+            fdef = {'function': {'name': 'ff', 'args': params, 'lastArgArray': True, 'statements': [
+                {'expr': {'expr': mut}}, {'return': {'expr': call('arrayNew', call('arrayLength', V('rest')), V('rest'))}}]}}
+            args = [N(k + 1) for k in range(nargs)]
+            plain = {'statements': [fdef, log(call('ff', *args)), log(call('ff', *args)), {'expr': {'name': 'keep', 'expr': call('ff', *args)}}, log(call('ff', *args)), {'return': {'expr': V('keep')}}]}
+            for rep in range(2):
+                check_model(freeze(plain), plain, {}, 200, acc, api, lambda: {'model': plain, 'init': {}, 'limit': 200})
+            acc.case(('rest-array', tuple(params), nargs, json.dumps(mut)), True)
+            acc.count('rest_array_models')
+
+
 def run_random(spec, acc, api):
     bare_script, lib, rt_err = api
     base = spec['seed'] * 1000003 + spec['shard'] * 7919 + 23
     shared = {}
     if spec['shard'] == 0:
         run_truthiness(acc, api)
+        run_rest_arrays(acc, api)
     for i in range(spec['n']):
         rnd = random.Random(base + i)
         if rnd.random() < 0.8:
